@@ -26,6 +26,7 @@ func (e *CExpr) String() string { return e.src }
 
 type LoopSpec struct {
 	Invariants []*CExpr
+	Grounds    []*CExpr
 	Decreases  *CExpr
 }
 
@@ -39,6 +40,7 @@ type Contract struct {
 	Pkg        string // package path
 	Requires   []*CExpr
 	Ensures    []*CExpr
+	AssumedEns []*CExpr // postconditions callers may rely on but the body is not checked against (listed as assumptions)
 	Modifies   []*CExpr
 	HasMod     bool // a modifies clause (possibly empty: "modifies nothing") was given
 	GhostRet   []GhostUpdate
@@ -82,6 +84,7 @@ type ContractFile struct {
 	Ghosts    []GhostField
 	Raw       []string // all //@ lines (for assumption scan)
 	Invariants []*CExpr
+	Grounds    []*CExpr
 	Lemmas    []Lemma
 	Directives []string // engine-specific lines (frame/trace/gram tables), kept raw
 }
@@ -152,6 +155,13 @@ func loadContractFile(pkgPath, dir string) (*ContractFile, error) {
 			}
 			cf.Invariants = append(cf.Invariants, e)
 			cur = nil
+		case "ground":
+			e, err := parseCExpr(rest)
+			if err != nil {
+				return nil, fail(err)
+			}
+			cf.Grounds = append(cf.Grounds, e)
+			cur = nil
 		case "lemma":
 			i := strings.Index(rest, ":")
 			if i < 0 {
@@ -184,6 +194,12 @@ func loadContractFile(pkgPath, dir string) (*ContractFile, error) {
 				} else {
 					cur.Ensures = append(cur.Ensures, e)
 				}
+			case "assume-ensures":
+				e, err := parseCExpr(rest)
+				if err != nil {
+					return nil, fail(err)
+				}
+				cur.AssumedEns = append(cur.AssumedEns, e)
 			case "modifies":
 				cur.HasMod = true
 				if strings.TrimSpace(rest) == "nothing" {
